@@ -15,6 +15,7 @@ def run(col, configs, tier):
         col.set_config(name)
         guarded(col, W.rule_dragonbox, facts, tier)
         guarded(col, W.rule_floor_logs, facts, tier)
+        guarded(col, W.rule_dragonbox_integer_window, facts)
         guarded(col, W.rule_grisu, facts)
         guarded(col, X.rule_divisibility_test, facts)
         guarded(col, X.rule_grisu_weed, facts)
